@@ -175,7 +175,7 @@ func VerifCreateOp(arg string) {
 				sum += vAmount(wl.Resources)
 			}
 		}
-		vAssert("C10/usage-equals-sum-of-recorded-workloads", w.usage[n] == sum)
+		vAssert("C10,C11/usage-equals-sum-of-recorded-workloads", w.usage[n] == sum)
 		if okCount == 0 {
 			vAssert("C11/failed-create-leaves-no-usage", w.usage[n] == 0)
 		}
